@@ -16,8 +16,8 @@ echo "--- existing suite WITH the change"
 cargo test --offline --no-fail-fast 2>&1 | grep -E "^test result|FAILED|panicked" | awk '{print}' | sort | uniq -c | sort -rn | head -12
 cp $DEMO tests/seed_demo.rs
 echo "--- demo WITH the change"
-cargo test --offline --test seed_demo 2>&1 | grep -E "^test result|^test .*(FAILED|ok)$" | head -12
+cargo test --offline --test seed_demo 2>&1 | grep -E "^test result|^test .*(FAILED|ok)$" | head -80
 git checkout -q -- src
 echo "--- demo WITHOUT the change"
-cargo test --offline --test seed_demo 2>&1 | grep -E "^test result|^test .*(FAILED|ok)$" | head -12
+cargo test --offline --test seed_demo 2>&1 | grep -E "^test result|^test .*(FAILED|ok)$" | head -80
 rm -f tests/seed_demo.rs
